@@ -19,6 +19,8 @@ import FordModel.Lemmas.Mask
 import FordModel.Attribs
 import FordModel.AttribsSpec
 import FordModel.Lemmas.Attribs
+import FordModel.TypeHead
+import FordModel.Lemmas.TypeHead
 namespace Ford.C01
 open Ford.Parse
 
@@ -547,5 +549,157 @@ example :
       = some { vartype := "type".toList, rest := ", intent(in) :: v".toList, proto := some ("vec_t".toList, []) } ∧
     (parseType "class(shape)::s".toList).toOption
       = some { vartype := "class".toList, rest := "::s".toList, proto := some ("shape".toList, []) } := by decide
+
+/-! ## The statement that opens a derived type (`TYPE_RE`, `FortranType._initialize`, `VARIABLE_STRING`) -/
+
+open Ford.TypeSpec Ford.TypeHead in
+/-- **Every identifier names a derived type.**  `type name` - the keyword in any letter case, any run of
+    blanks, any identifier at all (`isotope`, `is_stable_t`, `IS`, `type_t`, `end`, ...) - is taken as the
+    definition of the derived type with exactly that name: nothing else is recorded (no parent, no attribute,
+    the inherited permission, no parameter), whatever the name begins with. -/
+theorem type_definition_every_identifier (inh t w n w2 : Str) (ht : lower t = (chars! "type"))
+    (hw : isBlank w = true) (hwne : w ≠ []) (hn : ∀ c ∈ n, isWord c = true) (hne : n ≠ []) (hw2 : isBlank w2 = true) :
+    typeStmt inh (t ++ (w ++ (n ++ w2))) = some ⟨n, none, [], inh, []⟩ :=
+  typeStmt_plain inh t w n w2 ht hw hwne hn hne hw2
+
+open Ford.TypeSpec Ford.TypeHead in
+/-- **`type name` and `type :: name` are the same declaration** - for every identifier, independently of the
+    letter case of the keyword and of the blanks in either spelling. -/
+theorem type_definition_spellings_agree (inh t t' w w0 w1 n w2 w2' : Str) (ht : lower t = (chars! "type"))
+    (ht' : lower t' = (chars! "type")) (hw : isBlank w = true) (hwne : w ≠ []) (h0 : isBlank w0 = true)
+    (h1 : isBlank w1 = true) (hn : ∀ c ∈ n, isWord c = true) (hne : n ≠ []) (hw2 : isBlank w2 = true)
+    (hw2' : isBlank w2' = true) :
+    typeStmt inh (t ++ (w ++ (n ++ w2))) = typeStmt inh (t' ++ (w0 ++ ':' :: ':' :: (w1 ++ (n ++ w2')))) := by
+  rw [typeStmt_plain inh t w n w2 ht hw hwne hn hne hw2, typeStmt_colons inh t' w0 w1 n w2' ht' h0 h1 hn hne hw2']
+
+open Ford.TypeSpec Ford.TypeHead in
+/-- **`type, a₁, a₂, … :: name`.**  Any number of attribute texts (no comma or colon inside, blanks anywhere
+    around them), any identifier: the type has exactly that name and its attributes are classified one by one,
+    in the order written, each text exactly as written (`attrStep`, whose three cases follow). -/
+theorem type_definition_attribute_list_as_written (inh t w0 w1 n w2 : Str) (items : List (Str × Str × Str))
+    (ht : lower t = (chars! "type")) (h0 : isBlank w0 = true) (hi : items ≠ [])
+    (hok : ∀ it ∈ items, attrItemOk it = true) (h1 : isBlank w1 = true) (hn : ∀ c ∈ n, isWord c = true)
+    (hne : n ≠ []) (h2 : isBlank w2 = true) :
+    typeStmt inh (t ++ (w0 ++ ',' :: (renderAttrs items ++ ':' :: ':' :: (w1 ++ (n ++ w2))))) =
+      some ((items.map (·.2.1)).foldl attrStep ⟨n, none, [], inh, []⟩) :=
+  typeStmt_attrs inh t w0 w1 n w2 items ht h0 hi hok h1 hn hne h2
+
+open Ford.TypeSpec Ford.TypeHead in
+/-- `extends ( parent )` - keyword in any letter case, any blanks, any parent name (also one that begins with
+    a keyword) - records the parent as written and changes nothing else. -/
+theorem extends_attribute_names_the_parent (ti : TypeInfo) (e w1 w2 b w3 : Str) (he : lower e = (chars! "extends"))
+    (h1 : isBlank w1 = true) (h2 : isBlank w2 = true) (hb : ∀ c ∈ b, c ≠ '(' ∧ c ≠ ')' ∧ isSpace c = false)
+    (hbne : b ≠ []) (h3 : isBlank w3 = true) :
+    attrStep ti (e ++ (w1 ++ '(' :: (w2 ++ (b ++ (w3 ++ [')']))))) = { ti with base := some b } :=
+  attrStep_extends ti e w1 w2 b w3 he h1 h2 hb hbne h3
+
+open Ford.TypeSpec Ford.TypeHead in
+/-- `public` / `private` in any letter case set the permission (lower-cased) and change nothing else. -/
+theorem access_attribute_sets_the_permission (ti : TypeInfo) (a : Str) (ha : tight a = true)
+    (hk : lower a = (chars! "public") ∨ lower a = (chars! "private")) :
+    attrStep ti a = { ti with permission := lower a } :=
+  attrStep_access ti a ha hk
+
+open Ford.TypeSpec Ford.TypeHead in
+/-- every other attribute without a parenthesis (`abstract`, `sequence`-like words, ...) is appended to the
+    attributes exactly as written. -/
+theorem other_attribute_is_kept_as_written (ti : TypeInfo) (a : Str) (ha : tight a = true) (hnp : ∀ c ∈ a, c ≠ '(')
+    (h1 : lower a ≠ (chars! "public")) (h2 : lower a ≠ (chars! "private")) (h3 : lower a ≠ (chars! "external")) :
+    attrStep ti a = { ti with attribs := ti.attribs ++ [a] } :=
+  attrStep_plain ti a ha hnp h1 h2 h3
+
+open Ford.TypeSpec Ford.TypeHead in
+/-- **Parameterised type head** `type name ( .. )`: groups 2 and 3 of `TYPE_RE` are the name and the parameter
+    list as written - for every identifier except `is` (in any letter case), which followed by a parenthesis is
+    the SELECT TYPE guard (next theorem); that exclusion is the explicit hypothesis `hx`. -/
+theorem type_definition_with_parameters_partial (t w n w1 body w2 : Str) (ht : lower t = (chars! "type"))
+    (hw : isBlank w = true) (hwne : w ≠ []) (hn : ∀ c ∈ n, isWord c = true) (hne : n ≠ [])
+    (hx : lower n ≠ (chars! "is")) (h1 : isBlank w1 = true) (hb : ∀ c ∈ body, c ≠ '(' ∧ c ≠ ')')
+    (h2 : isBlank w2 = true) :
+    typeRe (t ++ (w ++ (n ++ (w1 ++ '(' :: (body ++ ')' :: w2))))) = some ⟨none, n, some ('(' :: (body ++ [')']))⟩ :=
+  typeRe_plain_params t w n w1 body w2 ht hw hwne hn hne hx h1 hb h2
+
+open Ford.TypeSpec Ford.TypeHead in
+/-- **Nothing undeclared: the SELECT TYPE guards.**  `type is ( ..`, `class is ( ..`, `class default` - keywords
+    in any letter case, any blanks, anything at all after them - are neither a derived type definition
+    (`TYPE_RE`) nor a declaration (`VARIABLE_RE`). -/
+theorem select_type_guards_declare_nothing (t cl i df w w1 rest : Str) (ht : lower t = (chars! "type"))
+    (hc : lower cl = (chars! "class")) (hi : lower i = (chars! "is")) (hd : lower df = (chars! "default"))
+    (hw : isBlank w = true) (hwne : w ≠ []) (h1 : isBlank w1 = true) :
+    typeRe (t ++ (w ++ (i ++ (w1 ++ '(' :: rest)))) = none ∧
+    varRe (t ++ (w ++ (i ++ rest))) = none ∧
+    varRe (cl ++ (w ++ (i ++ rest))) = none ∧
+    varRe (cl ++ (w ++ (df ++ rest))) = none :=
+  ⟨typeRe_guard t w i w1 rest ht hw hi h1, varRe_guard_type t w i rest ht hw hwne hi,
+   varRe_guard_class_is cl w i rest hc hw hwne hi, varRe_guard_class_default cl w df rest hc hw hwne hd⟩
+
+open Ford.TypeSpec Ford.TypeHead in
+/-- **A declaration `type ( .. ) ..` / `class ( .. ) ..` is a declaration** and never a type definition: `TYPE_RE`
+    (tried first by the cascade) rejects it, `VARIABLE_RE` accepts it with the keyword as written and everything
+    from the parenthesis on - whatever the type name inside the parentheses and the entity names begin with. -/
+theorem derived_type_declaration_is_a_declaration (t cl w rest : Str) (ht : lower t = (chars! "type"))
+    (hc : lower cl = (chars! "class")) (hw : isBlank w = true) :
+    typeRe (t ++ (w ++ '(' :: rest)) = none ∧
+    varRe (t ++ (w ++ '(' :: rest)) = some (t, '(' :: rest) ∧
+    varRe (cl ++ (w ++ '(' :: rest)) = some (cl, '(' :: rest) :=
+  ⟨typeRe_decl t w rest ht hw, varRe_decl_type t w rest ht hw, varRe_decl_class cl w rest hc hw⟩
+
+/-- `TYPE_RE`, `EXTENDS_RE`, `SPLIT_RE`, the statements of `FortranType._initialize`, the TYPE_RE branch of the
+    cascade and the `type` / `class` alternatives of `VARIABLE_STRING` in the current source are the texts
+    `TypeHead.typeRe`, `extendsSearch`, `splitStripped`, `typeInit`, `typeStmt` and `varRe` mirror (regenerated
+    from the source on every run). -/
+theorem typehead_source_as_modelled :
+    Generated.C01.typeRe =
+      ["^type(?:\\s+|\\s*(,.*)?::\\s*)((?!(?:is\\s*\\())\\w+)\\s*(\\([^()]*\\))?\\s*$", "re.IGNORECASE"] ∧
+    Generated.C01.extendsRe = ["extends\\s*\\(\\s*(?P<base>[^()\\s]+)\\s*\\)", "re.IGNORECASE"] ∧
+    Generated.C01.splitRe = ["\\s*,\\s*", "re.IGNORECASE"] ∧
+    Generated.C01.typeInitialize =
+      ["self.name = line.group(2)",
+       "self.extends = None",
+       "self.attribs = []",
+       "if line.group(1):",
+       "    attribstr = line.group(1)[1:].strip()",
+       "    attriblist = self.SPLIT_RE.split(attribstr.strip())",
+       "    for attrib in attriblist:",
+       "        attrib_lower = attrib.strip().lower()",
+       "        if (extends := EXTENDS_RE.search(attrib)):",
+       "            self.extends = extends['base']",
+       "        elif attrib_lower in ['public', 'private']:",
+       "            self.permission = attrib_lower",
+       "        elif attrib_lower == 'external':",
+       "            self.attribs.append('external')",
+       "        else:",
+       "            self.attribs.append(attrib.strip())",
+       "if line.group(3):",
+       "    paramstr = line.group(3).strip()",
+       "    self.parameters = self.SPLIT_RE.split(paramstr)",
+       "else:",
+       "    self.parameters = []"] ∧
+    Generated.C01.typeBranch =
+      ["(match := self.TYPE_RE.match(line)) and blocklevel == 0",
+       "if hasattr(self, 'types'):",
+       "    self.types.append(FortranType(source, match, self, self.permission))",
+       "    self.num_lines += self.types[-1].num_lines - 1",
+       "else:",
+       "    self.print_error(line, 'Unexpected derived TYPE')"] ∧
+    Generated.C01.variableTypeClassAlts = ["type(?!\\s+is)", "class(?!\\s+is|\\s+default)"] := by
+  decide
+
+open Ford.TypeSpec Ford.TypeHead in
+/-- non-vacuity: the hypotheses are met by ordinary statements, and the model computes on them -/
+example :
+    typeStmt (chars! "public") (chars! "type isotope") = some ⟨(chars! "isotope"), none, [], (chars! "public"), []⟩ ∧
+    typeStmt (chars! "public") (chars! "TYPE  :: Is_Stable_t ") = some ⟨(chars! "Is_Stable_t"), none, [], (chars! "public"), []⟩ ∧
+    typeStmt (chars! "public") (chars! "type, Extends( isotope ) ,PRIVATE , abstract::island")
+      = some ⟨(chars! "island"), some (chars! "isotope"), [(chars! "abstract")], (chars! "private"), []⟩ ∧
+    typeRe (chars! "type is (integer)") = none ∧ typeRe (chars! "TYPE IS(isotope)") = none ∧
+    typeRe (chars! "type(isotope) :: x") = none ∧
+    varRe (chars! "type is (integer)") = none ∧ varRe (chars! "class default") = none ∧
+    varRe (chars! "class is (isotope)") = none ∧
+    varRe (chars! "type(isotope) :: x") = some ((chars! "type"), (chars! "(isotope) :: x")) ∧
+    attrItemOk ((chars! " "), (chars! "Extends( isotope )"), (chars! " ")) = true ∧
+    (typeRe (chars! "type pdt(k, n)")).map (typeInit (chars! "public"))
+      = some ⟨(chars! "pdt"), none, [], (chars! "public"), [(chars! "(k"), (chars! "n)")]⟩ := by
+  decide
 
 end Ford.C01
